@@ -79,7 +79,7 @@ class HashLockstep(LockstepHook):
         return out
 
     def after_call(self, world, res, rec):
-        if rec.step < 0:
+        if rec.step < 0 or self.scn["steps"][rec.step].get("by") is not None:
             return
         args, kwargs = res.extra["args"][rec.step]
         if rec.method == "add_server":
@@ -190,7 +190,9 @@ class C12(Prop):
             "multi-key calls and vice versa; a quarter of the units first make a server fail and then run the workload "
             "either on the rotation reduced by its eviction or while it sits in its retry window (nothing may be sent "
             "for its keys and set_many must report them as failed); a third of the fault-free units add servers at run "
-            "time (add_server) in mid-history. Oracle: per-server command logs versus an independent "
+            "time (add_server) in mid-history; an eighth of the fault-free units have a second, unrelated HashClient "
+            "in the same process whose own server fails, is evicted and becomes due for revival (placement of the "
+            "client under test must not notice). Oracle: per-server command logs versus an independent "
             "reference placement (rendezvous over a from-the-C-source MurmurHash3): every command for key k at "
             "owner(k) only, each key of a multi-key call exactly once; plus a single abstract map stepped in "
             "lock-step (results and union of server stores). distinct = (server-set shape, op/arity sequence, number "
@@ -246,6 +248,18 @@ class C12(Prop):
         ck["retry_timeout"], ck["dead_timeout"] = 1, 600
         w = {"stack": "hash", "servers": servers, "nodes": nodes, "client_kwargs": ck,
              "knobs": {"recv_size": rng.choice(gen.RECV_SIZES)}}
+        bystander = None
+        if not degraded and not spares and rng.random() < 0.12:
+            # a second, unrelated HashClient lives in the same process: its own server (not one of ours) fails,
+            # is evicted there and becomes due for revival there - none of which is any business of the client
+            # under test, whose placement must not notice
+            bid = len(nodes)
+            nodes.append({"id": bid, "addrs": [["10.9.9.%d" % (bid + 1), 11211]]})
+            bystander = {"node": bid, "retry_attempts": rng.choice([0, 0, 1]),
+                         "at": rng.choice([0, 0, 1, 3]), "dt": rng.choice([601, 700, 61])}
+            w["bystanders"] = [{"stack": "hash", "servers": [E(("10.9.9.%d" % (bid + 1), 11211))],
+                                "client_kwargs": {"retry_attempts": bystander["retry_attempts"], "retry_timeout": 1,
+                                                  "dead_timeout": 60, "ignore_exc": True}}]
         nkeys = rng.choice([1, 2, 3, 5, 8, 20, 50])
         keys = []
         for j in range(nkeys):
@@ -358,6 +372,16 @@ class C12(Prop):
                 k["expire"] = rng.choice([0, 100])
                 k["noreply"] = rng.choice([False, True])
             steps.append({"t": "call", "m": m, "a": a, "k": k})
+            if bystander is not None and bystander["at"] == 0:
+                b = bystander
+                steps.append({"t": "node", "id": b["node"], "health": "refuse"})
+                for _ in range(b["retry_attempts"] + 2):
+                    steps.append({"t": "call", "by": 0, "m": "get", "a": [E(b"theirs")], "k": {}, "tag": "bystander"})
+                    steps.append({"t": "advance", "dt": 1.5})
+                steps.append({"t": "node", "id": b["node"], "health": "up"})
+                steps.append({"t": "advance", "dt": b["dt"]})
+            if bystander is not None:
+                bystander["at"] -= 1
             if flavour == "failing" and rng.random() < 0.45:
                 # let the retry window elapse so that the workload also performs the retries and the eviction
                 steps.append({"t": "advance", "dt": 1.5})
@@ -409,7 +433,7 @@ class C12(Prop):
         agree = {}
         rotation_changed = False
         for rec in res.calls:
-            if rec.step < start:
+            if rec.step < start or scn["steps"][rec.step].get("by") is not None:
                 continue
             args, kwargs = res.extra["args"][rec.step]
             m = rec.method
@@ -485,7 +509,7 @@ class C12(Prop):
         multi_span = cross = False
         multi_written, single_written = set(), set()
         for c in res.calls:
-            if c.step < scn.get("phase2", 0):
+            if c.step < scn.get("phase2", 0) or scn["steps"][c.step].get("by") is not None:
                 continue
             nn = len({x[0] for x in c.commands})
             ops.append((c.method, min(len(c.commands), 6), nn))
@@ -506,7 +530,8 @@ class C12(Prop):
         return ("multi-key-call-spans-3-servers", "server-key-pair-routed", "unix-and-tcp-mixed", "reduced-rotation",
                 "duplicate-key-in-multi-get", "empty-key-collection", "fifty-keys",
                 "server-added-at-run-time", "owning-server-in-retry-window",
-                "workload-meets-failing-server", "multi-key-call-first-after-dead_timeout")
+                "workload-meets-failing-server", "multi-key-call-first-after-dead_timeout",
+                "another-hashclient-evicts-its-own-server")
 
     def probes(self, scn, res):
         p = {}
@@ -521,6 +546,8 @@ class C12(Prop):
             p["workload-meets-failing-server"] = 1
         if scn.get("flavour") == "revival":
             p["multi-key-call-first-after-dead_timeout"] = 1
+        if w.get("bystanders") and any(st.get("by") is not None for st in scn["steps"]):
+            p["another-hashclient-evicts-its-own-server"] = 1
         if any(c.method == "add_server" and c.outcome == "return" for c in res.calls):
             p["server-added-at-run-time"] = 1
         allk = set()
